@@ -6,7 +6,7 @@
    [wf_uparams], [wf_ip4], [wf_prefix] are what the Go parameter types
    guarantee (uint32 / uint16 ranges, 4-byte addresses, prefix length <= 32). *)
 From Coq Require Import List NArith Bool.
-From Verif Require Import Model.Wire Proofs.WireP Proofs.WireReadP Proofs.WireDecP Proofs.WireP_prefix.
+From Verif Require Import Model.Wire Proofs.WireP Proofs.WireReadP Proofs.WireDecP Proofs.WireSizeP Proofs.WireAcceptP Proofs.WireP_prefix.
 Import ListNotations.
 Local Open Scope N_scope.
 
@@ -105,6 +105,65 @@ Proof. exact read_open_correct_dec. Qed.
 Theorem C16_dec_open_inv : forall w4 bs o, wfb bs -> dec_msg w4 bs = Some (MOpen o) ->
   bs = ser_msg w4 (MOpen o) /\ wf_msg w4 (MOpen o).
 Proof. exact dec_open_inv. Qed.
+
+(* the exact acceptance set of readOpen (octets < 256): it accepts a stream iff
+   it is a header announcing L < 65536, type OPEN, version 4, a legal hold time,
+   ANY option-length octet, then capability parameters whose known capabilities
+   are 4 octets long, reaching exactly the announced length (anything may
+   follow) -- or fewer, with the stream ending there.  It then reports
+   [understood] and consumes 29 + |parameters| octets (C16_read_open_stream). *)
+Theorem C16_read_open_accepts_iff : forall bs, wfb bs ->
+  ((exists r n, read_open bs = (ROk r, n)) <->
+   (exists L asn16 hold id optlen ps extra,
+      bs = open_stream L asn16 hold id optlen ps extra /\ open_stream_ok L asn16 hold id ps extra)).
+Proof. exact read_open_accepts_iff. Qed.
+
+Theorem C16_read_open_stream : forall L asn16 hold id optlen ps extra,
+  open_stream_ok L asn16 hold id ps extra ->
+  read_open (open_stream L asn16 hold id optlen ps extra) =
+  (ROk (understood {| o_ver := 4; o_asn := asn16; o_hold := hold; o_id := id; o_params := ps |}),
+   29 + len (concat (map ser_param ps))).
+Proof. exact read_open_stream. Qed.
+
+(* ... which is strictly more liberal than RFC 4271 (what [dec_msg] accepts):
+   a wrong Opt Parm Len octet is not noticed, and a stream ending at a parameter
+   boundary before the announced length is taken as a complete OPEN *)
+Theorem C16_read_open_more_liberal :
+  (exists bs r n, wfb bs /\ read_open bs = (ROk r, n) /\ dec_msg true bs = None /\ hdr_len bs = len bs) /\
+  (exists bs r n, wfb bs /\ read_open bs = (ROk r, n) /\ len bs < hdr_len bs).
+Proof. exact read_open_more_liberal. Qed.
+
+(* sizes: whatever the decoder accepts is 19..4096 octets with an exact length
+   field; every UPDATE sendUpdate writes is within the limit; sendWithdraw's
+   message has 23 + (octets of the prefixes) octets and its round trip holds
+   EXACTLY when that is <= 4096 (the whole shape of the finding) *)
+Theorem C16_dec_msg_size : forall w4 bs m, dec_msg w4 bs = Some m ->
+  19 <= len bs <= 4096 /\ (wfb bs -> hdr_len bs = len bs).
+Proof. exact dec_msg_size. Qed.
+
+Theorem C16_update_size : forall asn ibgp fbasn nh a bs,
+  wf_uparams asn nh a -> enc_update asn ibgp fbasn nh a = Some bs -> 19 <= len bs <= 4096.
+Proof. exact enc_update_size. Qed.
+
+Theorem C16_withdraw_roundtrip_iff : forall ps bs w4, Forall wf_prefix ps -> enc_withdraw ps = Some bs ->
+  (dec_msg w4 bs = Some (intended_withdraw ps) <-> len bs <= 4096) /\ wfb bs /\ hdr_len bs = len bs.
+Proof. exact withdraw_roundtrip_iff. Qed.
+
+Theorem C16_withdraw_len : forall ps bs, enc_withdraw ps = Some bs ->
+  len bs = 23 + len (concat (map enc_prefix ps)).
+Proof. exact enc_withdraw_len. Qed.
+
+(* what the prefix octets MEAN, for every length 0..32 and arbitrary address
+   bits: the network a receiver installs (octets padded with zeros, bits beyond
+   the length cleared) is the intended address masked to the length; and bit by
+   bit, each of the first [len] address bits is in the NLRI at its place *)
+Theorem C16_nlri_network : forall p, wf_prefix p ->
+  nlri_network (intended_nlri p) = mask_to (p_len p) (addr_val (p_ip p)).
+Proof. exact nlri_network_spec. Qed.
+
+Theorem C16_nlri_bits : forall p i, wf_prefix p -> i < p_len p ->
+  bit_at (snd (intended_nlri p)) i = bit_at (p_ip p) i.
+Proof. exact nlri_bits_spec. Qed.
 
 (* the independent decoder inverts the RFC serializer on every well-formed
    message (ties [ser_msg], used below to quantify over well-formed OPENs, to
